@@ -369,6 +369,62 @@ def self_test(ctx, g, jobs, outs):
     raise tlc.TLCError('self-test: no suitable trace')
 
 
+def volume_sweep(ctx):
+    """outputs from 0 to hundreds of KB through every transport with several maxread values: the child
+    writes a known byte pattern and exits / closes at once (the classic 'output then exit' race); what
+    expect(EOF) returns must be exactly the pattern.  Direct comparison (the models carry counts, not bytes)."""
+    import subprocess, socket, threading
+    from pexpect import fdpexpect, popen_spawn, socket_pexpect
+    sizes = [0, 1, 4095, 4096, 70001] if ctx.quick() else [0, 1, 2, 1023, 1024, 4095, 4096, 4097, 65535, 65536, 70001, 300000, 524288]
+    maxreads = [1, 7, 2000, 65536]
+    pat = lambda n: bytes((33 + (i * 7 + i // 89) % 90) for i in range(n))
+    prog = "import sys,os; n=int(sys.argv[1]); d=bytes((33 + (i*7 + i//89) %% 90) for i in range(n)); os.write(1, d) if n < 65536 else sys.stdout.buffer.write(d); sys.stdout.flush()"
+    runs = 0
+    for n in sizes:
+        want = pat(n)
+        for mr in maxreads:
+            if mr == 1 and n > 5000:
+                continue
+            for tr in ('pty', 'popen', 'pipe', 'socket'):
+                runs += 1
+                got = None
+                try:
+                    if tr == 'pty':
+                        c = pexpect.spawn(sys.executable, ['-c', prog % (), str(n)], maxread=mr, timeout=60, echo=False)
+                        c.expect(pexpect.EOF)
+                        got = c.before
+                        c.close()
+                    elif tr == 'popen':
+                        c = popen_spawn.PopenSpawn([sys.executable, '-c', prog % (), str(n)], maxread=mr, timeout=60)
+                        c.expect(pexpect.EOF)
+                        got = c.before
+                        c.wait()
+                    elif tr == 'pipe':
+                        p = subprocess.Popen([sys.executable, '-c', prog % (), str(n)], stdout=subprocess.PIPE)
+                        c = fdpexpect.fdspawn(p.stdout.fileno(), maxread=mr, timeout=60)
+                        c.expect(pexpect.EOF)
+                        got = c.before
+                        p.wait()
+                        p.stdout.close()
+                    else:
+                        a, b = socket.socketpair()
+                        t = threading.Thread(target=lambda: (b.sendall(want), b.close()))
+                        t.start()
+                        c = socket_pexpect.SocketSpawn(a, maxread=mr, timeout=60)
+                        c.expect(pexpect.EOF)
+                        got = c.before
+                        t.join()
+                        a.close()
+                except Exception as e:
+                    got = ('<%s: %s>' % (type(e).__name__, str(e)[:80])).encode()
+                if got != want:
+                    first = next((i for i in range(min(len(got), len(want))) if got[i] != want[i]), min(len(got), len(want)))
+                    ctx.fail('C06:volume-output-not-delivered-exactly', {'transport': tr, 'size': n, 'maxread': mr},
+                             detail={'got_len': len(got), 'want_len': len(want), 'first_difference_at': first, 'got_head': repr(got[:60])},
+                             signature={'transport': tr})
+    return runs, max(sizes)
+
+
 def run(ctx):
     if ctx.replay:
         return replay(ctx)
@@ -379,6 +435,10 @@ def run(ctx):
             results[tr] = run_transport(ctx, pool, tr)
     res, g, stats, jobs, outs = results['pty']
     ctx.note('binding self-test: ' + self_test(ctx, g, jobs, outs))
+    vruns, vmax = (0, 0)
+    if ctx.pid == 'C06':
+        vruns, vmax = volume_sweep(ctx)
+        ctx.note('volume sweep: %d runs (sizes up to %d bytes x maxread in {1, 7, 2000, 65536} x pty / popen / pipe / socket), expect(EOF).before == what was written' % (vruns, vmax))
     ctx.failures = [f for f in ctx.failures if f.clause.startswith(ctx.pid + ':')]
     status, nviol, nknown = common.conclude(ctx)
     tot = lambda k: sum(r[2][k] for r in results.values())
@@ -394,7 +454,7 @@ def run(ctx):
                 'socket descriptor x select/poll); non-trivial = contains at least one peer action',
         'exhaustive': not ctx.quick(), 'spec_drift': tot('drift'), 'accepted_by_model': tot('accepted'),
         'per_transport': {tr: dict(r[2], states=r[0]['distinct']) for tr, r in results.items()},
-        'known_findings_hit': nknown,
+        'known_findings_hit': nknown, 'volume_sweep_runs': vruns, 'volume_sweep_max_bytes': vmax,
     }, assumptions=['Linux pty / pipe / socket semantics (readable on hang-up, EIO or empty read at the end, short reads) are observed on the real kernel',
                     'peer actions are placed between system calls; races inside a single system call are the kernel\'s',
                     'PopenSpawn: the reader thread is gated (its os.read and queue.put wait for the schedule), the child is /bin/cat'],
